@@ -205,41 +205,4 @@ structure Miu where
   mmioBase : U16 := 0x8000
   deriving DecidableEq, Repr, Inhabited
 
-/-- The interpreter's view of the machine: registers, MIU configuration, memory and the access
-log.  (Peripherals behind the MMIO window are added by the system model.) -/
-structure Core where
-  regs : Regs := {}
-  miu : Miu := {}
-  mem : Mem := {}
-  log : List Access := []      -- most recent first
-  -- `Interpreter` private members
-  ipend : Vector Bool 3 := Vector.replicate 3 false   -- interrupt_pending
-  vpend : Bool := false                                -- vinterrupt_pending
-  vctx : Bool := false                                 -- vinterrupt_context_switch
-  vaddr : U32 := 0                                     -- vinterrupt_address
-  idle : Bool := false
-  deriving Inhabited
-
-/-- Outcome classes of one modelled step.  `mmio` = the access fell into the MMIO window, which
-the bare core model does not interpret (the system model does). -/
-inductive Stop where
-  | abort (a : Abort)
-  | mmio (offset : U16) (isWrite : Bool)
-  | unmodelled (key : String)
-  deriving Repr
-
-abbrev Exec := StateT Core (Except Stop)
-
-namespace Exec
-def abort {α : Type} (a : Abort) : Exec α := throw (.abort a)
-def unimpl {α : Type} : Exec α := abort .unimpl
-def unreachable {α : Type} : Exec α := abort .assert
-/-- `ASSERT(c)` -/
-def assert (c : Bool) : Exec Unit := if c then pure () else abort .assert
-
-@[inline] def getRegs : Exec Regs := do return (← get).regs
-@[inline] def setRegs (r : Regs) : Exec Unit := modify fun c => { c with regs := r }
-@[inline] def modifyRegs (f : Regs → Regs) : Exec Unit := modify fun c => { c with regs := f c.regs }
-end Exec
-
 end Teakra
